@@ -74,9 +74,13 @@ class RateLimiter(BaseRateLimiter):
     def evaluate_rules(self, rules, timestamps):
         now = self._timestamp()
         if timestamps:
-            if (now - timestamps[0]) > max(rules)[0]:
+            max_interval = max(rules)[0]
+            if (now - timestamps[0]) > max_interval:
                 timestamps.clear()
             else:
+                # forget the timestamps that are too old to count against any rule
+                while timestamps and (now - timestamps[-1]) >= max_interval:
+                    timestamps.pop()
                 for interval, freq in rules:
                     count = 0
                     for ts in timestamps:
